@@ -138,6 +138,15 @@ func (t *Tree) Insert(key []byte, value uint64, _ ...bool) {
 	node.Total += value
 }
 
+// prependChildren returns children followed by nodes in a fresh slice.
+// append(children, nodes...) would write into the spare capacity of the
+// node's own children slice, which readers only hold a read lock for.
+func prependChildren(children, nodes []*treeNode) []*treeNode {
+	res := make([]*treeNode, 0, len(children)+len(nodes))
+	res = append(res, children...)
+	return append(res, nodes...)
+}
+
 func (t *Tree) iterate(cb func(key []byte, val uint64)) {
 	nodes := []*treeNode{t.root}
 	prefixes := make([][]byte, 1)
@@ -155,7 +164,7 @@ func (t *Tree) iterate(cb func(key []byte, val uint64)) {
 
 		cb(label, node.Self)
 
-		nodes = append(node.ChildrenNodes, nodes...)
+		nodes = prependChildren(node.ChildrenNodes, nodes)
 		for i := 0; i < len(node.ChildrenNodes); i++ {
 			prefixes = append([][]byte{label}, prefixes...)
 		}
@@ -170,7 +179,7 @@ func (t *Tree) iterateWithCum(cb func(cum uint64) bool) {
 		nodes = nodes[1:]
 		i++
 		if cb(node.Total) {
-			nodes = append(node.ChildrenNodes, nodes...)
+			nodes = prependChildren(node.ChildrenNodes, nodes)
 		}
 	}
 }
